@@ -419,6 +419,9 @@ fn check_camera(i: u64, r: &mut Report) {
     if !lit.is_empty() { r.nontrivial(); }
 }
 
+/// azimuths: -180..180 in 15-degree steps, then four beyond half a turn (rotate_to must wrap them, not clamp)
+fn fp_az(i: u64) -> f32 { let k = i / 54 % 29; if k < 25 { k as f32 * 15.0 - 180.0 } else { [270.0f32, -200.0, 540.0, 725.0][(k - 25) as usize] } }
+
 fn check_first_person(i: u64, r: &mut Report) {
     r.eval();
     let case = || obj! {"kind" => "fp", "i" => i};
@@ -428,21 +431,22 @@ fn check_first_person(i: u64, r: &mut Report) {
     let mut fp = FirstPerson::new();
     fp.pos = pos.to();
     // histories: the operation under test is preceded by 0..2 earlier operations (rotate, rotate_to, look_at, translate)
-    let pre = (i / 10800) % 6;
-    let pre_desc = ["", "rotate_to(40,-20);", "look_at(pos+(1,2,-3));", "rotate(-100,35);rotate(30,10);", "translate(1,1,1);look_at(pos+(0,-1,0.01));", "rotate_to(179,89);"][pre as usize];
+    let pre = (i / 12528) % 6;
+    let pre_desc = ["", "rotate_to(40,-20);", "look_at(pos+(1,2,-3));", "rotate(-100,35);rotate(30,10);8xrotate(30,0);", "translate(1,1,1);look_at(pos+(0,-1,0.01));", "rotate_to(179,89);"][pre as usize];
     match pre {
         1 => fp.rotate_to(degs(40.0), degs(-20.0)),
         2 => fp.look_at(vec3(fp.pos.x() + 1.0, fp.pos.y() + 2.0, fp.pos.z() - 3.0)),
-        3 => { fp.rotate(degs(-100.0), degs(35.0)); fp.rotate(degs(30.0), degs(10.0)); }
+        3 => { fp.rotate(degs(-100.0), degs(35.0)); fp.rotate(degs(30.0), degs(10.0)); for _ in 0..8 { fp.rotate(degs(30.0), degs(0.0)); } }
         4 => { fp.translate(vec3(1.0, 1.0, 1.0)); fp.pos = pos.to(); fp.look_at(vec3(fp.pos.x(), fp.pos.y() - 1.0, fp.pos.z() + 0.01)); }
         5 => fp.rotate_to(degs(179.0), degs(89.0)),
         _ => {}
     }
     let desc;
     if mode == 0 {
-        let az = ((i / 54 % 25) as f32) * 15.0 - 180.0;
-        let alt = [0.0f32, 30.0, -30.0, 89.0, -89.0, 90.0, -90.0, 45.0][(i / 1350 % 8) as usize];
-        fp.rotate_to(degs(az), degs(alt));
+        let az = fp_az(i);
+        let alt = [0.0f32, 30.0, -30.0, 89.0, -89.0, 90.0, -90.0, 45.0][(i / 1566 % 8) as usize];
+        // history 3 reaches the heading by eight relative 30-degree turns (passing half a turn on the way), the others directly
+        if pre == 3 { fp.rotate_to(degs(az - 240.0), degs(alt)); for _ in 0..8 { fp.rotate(degs(30.0), degs(0.0)); } } else { fp.rotate_to(degs(az), degs(alt)); }
         desc = format!("{pre_desc}pos={:?}|az={az}|alt={alt}", pos.0);
     } else {
         let dirs = [[1.0f32, 0.0, 0.0], [-1.0, 0.0, 0.0], [0.0, 0.0, 1.0], [0.0, 0.0, -1.0], [0.0, 1.0, 0.0], [0.0, -1.0, 0.0], [1.0, 1.0, 1.0], [-1.0, 2.0, -0.5], [0.3, -0.7, 0.2], [-2.0, -0.1, 5.0], [1e-3, 1.0, 0.0], [0.0, 0.5, -2.0], [3e-3, -1.0, 1e-3], [0.02, 1.0, -0.01], [-0.1, 1.0, 0.05], [0.5, 3.0, 0.5]];
@@ -479,8 +483,8 @@ fn check_first_person(i: u64, r: &mut Report) {
     // rotate_to(az, alt): the direction az/alt names (azimuth from +x towards +z, altitude towards +y; harness-side f64
     // trigonometry, not to_cart) maps onto the positive depth axis
     if mode == 0 {
-        let az = (((i / 54 % 25) as f64) * 15.0 - 180.0).to_radians();
-        let alt = ([0.0f64, 30.0, -30.0, 89.0, -89.0, 90.0, -90.0, 45.0][(i / 1350 % 8) as usize]).to_radians();
+        let az = (fp_az(i) as f64).to_radians();
+        let alt = ([0.0f64, 30.0, -30.0, 89.0, -89.0, 90.0, -90.0, 45.0][(i / 1566 % 8) as usize]).to_radians();
         let dir = [az.cos() * alt.cos(), alt.sin(), az.sin() * alt.cos()];
         let q = [pos.x() as f64 + 2.0 * dir[0], pos.y() as f64 + 2.0 * dir[1], pos.z() as f64 + 2.0 * dir[2]];
         let got = apply_d(&md, q);
@@ -523,13 +527,13 @@ fn run_proj(cfg: &Cfg) -> ! {
     rects.extend([(20, 10, 620, 470), (0, 0, 101, 75), (3, 4, 324, 205), (0, 0, 1, 1), (10, 10, 11, 4000)]);
     rep.merge(par_range(cfg, rects.len() as u64, |i, r| { let (l, t, rr, b) = rects[i as usize]; check_viewport(l, t, rr, b, r); }));
     rep.merge(par_range(cfg, 144 * 10, check_camera));
-    rep.merge(par_range(cfg, 54 * 25 * 8 * 6, check_first_person));
+    rep.merge(par_range(cfg, 54 * 29 * 8 * 6, check_first_person));
     let _: Angle = degs(0.0);
     let _: Option<Point3> = None;
     let _ = <FirstPerson as Mode>::world_to_view;
     rep.sample(0, || obj! {"perspective" => "focal 2, aspect 2.35, near..far 0.01..10, probe (u,v,z) = (1-2e-4, -1.5, far)", "viewport" => vec![3, 4, 324, 205], "camera" => "frame 5x7, requested (3..40, 0..5), focal 1, world point (-1.2,0.9,4)", "first_person" => "pos (-2,0,3.5), az 165, alt 90; look_at straight down; translate (0.5,-2,3)"});
     rep.finish(cfg, "exploration",
-        "perspective: 5 focal x 4 aspect x 4 near/far x a 9x9x11 probe lattice in frustum coordinates (inside, on every face, +-2e-4 off, behind the eye): inside iff inside the clip volume, near/far to -1/+1, monotone depth, w = depth; orthographic boxes likewise; viewport: all rectangles with corners in 0..7 plus large/odd ones map the NDC square onto the rectangle; camera: 4 frame sizes x (5 requested rectangles, partly outside the frame | no viewport() call at all = whole frame) x 3 focal ratios x perspective/orthographic x 10 world points: matrix path vs pinhole pixel/depth, and a rendered half-pixel triangle lights only pixels near the prediction and inside viewport∩frame; first person: 6 operation histories (fresh; after rotate_to; after look_at; after two relative rotations; after translate+look_at; after a near-vertical rotate_to) x 27 positions x (25 azimuths x 8 altitudes incl. +-90 | 16 look-at directions incl. straight up/down and 0.06-6 degrees off vertical x 2 distances): rigid (det +1, orthonormal), position to origin, heading/target onto +z, translate displaces along right / up / horizontal forward. non-trivial = case fully judged with a decisive (non-band) outcome.",
+        "perspective: 5 focal x 4 aspect x 4 near/far x a 9x9x11 probe lattice in frustum coordinates (inside, on every face, +-2e-4 off, behind the eye): inside iff inside the clip volume, near/far to -1/+1, monotone depth, w = depth; orthographic boxes likewise; viewport: all rectangles with corners in 0..7 plus large/odd ones map the NDC square onto the rectangle; camera: 4 frame sizes x (5 requested rectangles, partly outside the frame | no viewport() call at all = whole frame) x 3 focal ratios x perspective/orthographic x 10 world points: matrix path vs pinhole pixel/depth, and a rendered half-pixel triangle lights only pixels near the prediction and inside viewport∩frame; first person: 6 operation histories (fresh; after rotate_to; after look_at; after two relative rotations; after translate+look_at; after a near-vertical rotate_to) x 27 positions x (29 azimuths incl. 270, -200, 540, 725 degrees x 8 altitudes incl. +-90 | 16 look-at directions incl. straight up/down and 0.06-6 degrees off vertical x 2 distances): rigid (det +1, orthonormal), position to origin, heading/target onto +z, translate displaces along right / up / horizontal forward. non-trivial = case fully judged with a decisive (non-band) outcome.",
         &["probe bands: 1e-4 relative around frustum faces are exempt", "pinhole model: pixel = centre + focal*W/2 * (x/z, y/z), depth 1/z, as documented for perspective() and viewport()"])
 }
 
